@@ -14,7 +14,7 @@ LEVEL = 'model_checking'
 FUNCTIONS = ['filters:TriangularOverlappingFilterBank.get_truncated_response', 'filters:TriangularOverlappingFilterBank.get_frequency_response',
              'filters:Fbank.get_truncated_response', 'filters:Fbank.get_frequency_response', 'filters:GaborFilterBank.get_truncated_response',
              'filters:GaborFilterBank.get_frequency_response', 'filters:ComplexGammatoneFilterBank.get_truncated_response',
-             'filters:ComplexGammatoneFilterBank.get_frequency_response', 'filters:TriangularOverlappingFilterBank.__init__']
+             'filters:ComplexGammatoneFilterBank.get_frequency_response', 'filters:TriangularOverlappingFilterBank.__init__', 'filters:ComplexGammatoneFilterBank.__init__']
 EXPLANATION = (
     'The response methods of all four banks run on symbolic real vertices / supports and a SYMBOLIC DFT bin (np.ceil / int are '
     'z3 ToInt forms, widths concrete). Compact banks (triangular, Fbank): z3 decides 0 <= start < width, that a real bank\'s '
@@ -28,7 +28,8 @@ EXPLANATION = (
 BOUNDS = {'quick': 'widths 2, 3, 8, 9, 64 (compact banks: filters spanning <= 4 bins, Fbank <= 2 bins and widths <= 9; Gabor/gammatone: supports spanning <= 3 bins, any position incl. below 0 Hz / above Nyquist); half vs full response widths 2,3,8,9; purity: call sequences over widths 8,9,64,65 incl. get_truncated_response at adjacent widths and half-then-full; before every query another instance of the class (other parameters, other sampling rate) is queried at the same width; class-level mutable state is restored at the start of every path',
           'thorough': 'widths 2, 3, 4, 5, 7, 8, 9, 16, 17, 64, 127, 512'}
 OUTSIDE = ['finiteness of values (floating-point overflow)', 'magnitude of floating-point error',
-           'Gabor / gammatone: numerical size of the omitted summands (tail lemma, C07) -- the bound is decided structurally, not numerically']
+           'Gabor: numerical size of the omitted summands (tail lemma, C07) -- the bound is decided structurally, not numerically; '
+           'gammatone: the envelope AT the advertised frequency edge is shown equal to the threshold for orders 2-4 (thorough 1-6), erb on/off, L2 scaling on/off (gt_edge), the sum of the periodic images beyond it is not bounded here']
 ASSUMPTIONS = ['Gaussian / gammatone magnitude responses decrease monotonically away from the centre (closed forms), so a summand at or beyond the support edge is <= threshold',
                'gammatone _H (closed-form response) and the Gaussian summand are uninterpreted functions of the absolute frequency here']
 CONFIG_TIME_LIMIT = {'quick': 900, 'thorough': 3000}
@@ -51,6 +52,10 @@ def configs(tier, seed):
             cfgs.append(dict(kind='half', name='half %s w%d' % (cls, w), cls=cls, width=w))
     for cls in fc.BANKS:
         cfgs.append(dict(kind='pure', name='purity %s' % cls, cls=cls))
+    # the window obligations take for granted that a gammatone summand at the advertised frequency edge is <= threshold;
+    # C07 shows that for banks without L2 scaling only (its property excludes the others), C06 holds for every bank
+    for order, erb, l2 in itertools.product((2, 3, 4) if tier == 'quick' else (1, 2, 3, 4, 5, 6), (False, True), (False, True)):
+        cfgs.append(dict(kind='gt_edge', name='gammatone frequency edge n%d erb=%s l2=%s' % (order, erb, l2), order=order, erb=erb, l2=l2))
     return cfgs
 
 
@@ -458,8 +463,17 @@ def run_half(cfg):
     return dict(obligations=ob, discharged=dis, violations=viol, samples=[{'config': cfg['name'], 'paths': ob}], twin=dis > 0)
 
 
+def run_gt_edge(cfg):
+    from checks import c07
+    r = c07.run_gt_freq(cfg)
+    for w in r['violations']:
+        w['kind'] = 'gt_edge'
+        w['class'] = 'gt_edge/' + w['class'].split('/', 1)[-1] + ('/l2' if cfg['l2'] else '')
+    return r
+
+
 def run_config(cfg):
-    return {'compact': run_compact, 'vertices': run_vertices, 'window': run_window, 'pure': run_pure, 'half': run_half}[cfg['kind']](cfg)
+    return {'compact': run_compact, 'vertices': run_vertices, 'window': run_window, 'pure': run_pure, 'half': run_half, 'gt_edge': run_gt_edge}[cfg['kind']](cfg)
 
 
 # ------------------------------------------------------------------ replay on the real banks
@@ -542,6 +556,21 @@ def replay(w):
             if not (0 <= bi < width) or (not w['analytic'] and bi + len(tr) > width // 2 + 1) or not np.allclose(full.real, ref, atol=1e-12) or len(half) != hl or not np.array_equal(half, ref[:hl]):
                 return {'reproduced': True, 'detail': '%s vertices %s width %d: %s' % (w['cls'], verts, width, w['what'])}
             return {'reproduced': False, 'detail': 'compact bank consistent'}
+        if k == 'gt_edge':
+            from pydrobert.speech.filters import ComplexGammatoneFilterBank
+            worst = (0.0, None)
+            for rate, nf in ((16000, 40), (8000, 24), (8000, 7)):
+                b = ComplexGammatoneFilterBank('mel', num_filts=nf, sampling_rate=rate, order=w['order'], erb=w['erb'], scale_l2_norm=w['l2'])
+                for width in (64, 128, 512, 1024):
+                    for i in range(b.num_filts):
+                        bi, tr, full = _rebuild(b, i, width)
+                        ref = b.get_frequency_response(i, width)
+                        d = float(np.abs(full - ref).max())
+                        if d > worst[0]:
+                            worst = (d, 'gammatone order %d erb=%s scale_l2_norm=%s, %d filters at %d Hz, filter %d width %d' % (w['order'], w['erb'], w['l2'], nf, rate, i, width))
+            if worst[0] > 2 * thr:
+                return {'reproduced': True, 'detail': '%s: rebuilt response differs from get_frequency_response by %.3g > 2*threshold' % (worst[1], worst[0])}
+            return {'reproduced': False, 'detail': 'rebuilt gammatone responses within 2*threshold (worst %.3g)' % worst[0]}
         if k == 'window':
             # scan real banks whose supports sit at the witness position relative to the DFT grid
             for sc in ('mel', 'bark'):
